@@ -93,6 +93,9 @@ def pair_plan(p, tier, rng):
         if fam in ("multi", "shared"):
             cand = [(a, b) for a in ids for b in ids if a != b]
             rng.shuffle(cand)
+            if fam == "shared":
+                # the two validations under different flags against each other always come first (both orders)
+                cand.sort(key=lambda ab: 0 if p[ab[0]]["fn"] == p[ab[1]]["fn"] == "shared_validate" else 1)
             out += [(name, a, b) for a, b in cand[: (3 if fam == "multi" else 2) if tier == "quick" else 12]]
         elif fam in ("algo", "api", "nat", "natb"):
             cand = [(a, b) for a in ids for b in ids if a != b]
